@@ -2758,7 +2758,11 @@ def gate_case(template, seed, n_spell=6):
     from rdkit import Chem
     rng = _r.Random(seed)
     rd, rm = rd_potential_centres(template)
-    dead = proven_nonstereogenic(rm) - rd      # atoms that are certainly not stereocentres
+    # atoms that are certainly not stereocentres: (a) inverting them alone is a constitutional automorphism; (b) carbon atoms
+    # that are not neutral closed-shell sp3 carbons (radical, cation, anion: trigonal or rapidly inverting) — both only when
+    # RDKit does not list them as potential centres either
+    dead = (proven_nonstereogenic(rm) | {a.GetIdx() for a in rm.GetAtoms() if a.GetSymbol() == 'C' and
+                                         (a.GetNumRadicalElectrons() or a.GetFormalCharge())}) - rd
     ri = rm.GetRingInfo()
     res, known = [], False
     for _ in range(n_spell):
